@@ -83,6 +83,21 @@ claim("C05", "proof",
       "only the forwarder records ownership, with (seq, connections[sel_idx].conn_id, packet time); a vanished link falls back to the holder scan.",
       "DESIGN.md 5 C05", "")
 
+claim("C08", "other",
+      "who-may-call + dominance of the taken guard branches, transitive read-set and exact return formula of the liveness predicate, interval analysis of the back-off, must-dominate rules for the REG3 arm and for the configuration refresh before each housekeeping pass",
+      "Teardown sites are closed (5 + 2) and each is under a failed send, or under is_timed_out & should_attempt_reconnect on that link; is_timed_out reads only "
+      "{connected, last_received, conn_timeout_ms, reconnection.*} and for a connected link equals now - last_received >= conn_timeout_ms; back-off in [5000,120000], "
+      "1 s initial cadence after the grace deadline, back-off cadence afterwards, every attempt stamped before the teardown; REG3 clears pre-registration state before "
+      "connected := true (zero in-flight, cleared log, Warming), resets restore window 20000; the per-link timeout copy is refreshed from the configuration in a full loop "
+      "that dominates every housekeeping pass inside the event loop. Found defect F7 (stale 5 s copy), repaired.",
+      "DESIGN.md 5 C08", "Timed liveness ('within 30 s', 'retries forever', survivors' throughput) is not decided.")
+claim("C16", "other",
+      "interval + symbolic (float) abstract interpretation of tick() against the symbols prev / obs with interval-coefficient products, path-condition guards for the bootstrap branch and the loss latch, sentinel-exclusivity rule for the seed guard",
+      "Every target store lies in [100k, 200M]; only the no-RTT branch forces the floor and it returns; per arm: Bootstrap/Holding = prev, Climbing in [prev, prev+6%] and <= max(prev, 2*obs), "
+      "BackingOff in [max(85% prev, min(obs, prev)), prev], Drain = 75% prev only under prev_state != Drain, final clamp; latch set only with ewma > 0.55 sustained >= 4000 ms and cleared only "
+      "below 0.25, sustain clock reset whenever ewma <= 0.55; the seed guard is falsified by every post-seed store. Found defect F5 (re-seed from the floor), repaired.",
+      "DESIGN.md 5 C16", "EWMA numerics and strict positivity of the RTT average are not decided; float comparisons are treated as monotone real arithmetic.")
+
 NOT_APPLICABLE = {}
 ALL = ["C%02d" % i for i in range(1, 21)]
 
